@@ -345,6 +345,17 @@ class HistoryView:
             return None
         return list(self.generations[-1][2]["patterns"])
 
+    def accumulated_patterns(self):
+        """every pattern of every generation, first occurrence order (== latest_patterns() when patterns accumulate)"""
+        if not self.generations:
+            return None
+        out = []
+        for g in self.generations:
+            for p in g[2]["patterns"]:
+                if p not in out:
+                    out.append(p)
+        return out
+
     def file_records(self):
         """{path: [(gen_number, record)]} over all generations"""
         out = {}
